@@ -432,8 +432,38 @@ Proof. intros Hu. unfold decompose.
   - split; [exact G1|]. cbv zeta. rewrite G2. unfold sem. cbn [dB dA dd du peval].
     replace (- (x * 0)) with (0 : K) by ring. rewrite E0. field. intros Z. apply (one_nz K). rewrite <- Z. ring.
 Qed.
+
+(* ---- certificates for roots that are NOT in the coefficient field (irrational poles/zeros)
+   The implementation reports algebraic numbers; the harness groups them by their minimal
+   polynomial m over Q (computed by sympy: oracle) and the verified part is the exact
+   identity  A = lc(A) * Π m_i^{n_i} : every root of an m_i is then a root of A, m_i^{n_i}
+   divides A, and the multiplicities account for the whole degree. *)
+Fixpoint ppowprod (l : list (poly * nat)) : poly :=
+  match l with [] => [1] | (m, n) :: t => pmul (ppow m n) (ppowprod t) end.
+Fixpoint ppowprod_val (l : list (poly * nat)) (x : K) : K :=
+  match l with [] => 1 | (m, n) :: t => fpow (peval m x) n * ppowprod_val t x end.
+Lemma peval_ppowprod l x : peval (ppowprod l) x = ppowprod_val l x.
+Proof. induction l as [|[m n] t IH]; cbn [ppowprod ppowprod_val]; [cbn; ring|].
+  rewrite peval_pmul, peval_ppow, IH. reflexivity. Qed.
+Definition minpoly_cert (A : poly) (l : list (poly * nat)) : bool := peqb A (pscale (plc A) (ppowprod l)).
+Definition minpoly_degree (l : list (poly * nat)) : nat := fold_right (fun mn acc => (snd mn * (psize (fst mn) - 1) + acc)%nat) O l.
+Theorem minpoly_cert_sound A l : minpoly_cert A l = true -> forall x, peval A x = plc A * ppowprod_val l x.
+Proof. intros H x. rewrite (peqb_sound _ _ _ H x), peval_pscale, peval_ppowprod. reflexivity. Qed.
+Lemma ppowprod_val_split l m n : In (m, n) l -> exists C, forall x, ppowprod_val l x = peval C x * fpow (peval m x) n.
+Proof. induction l as [|[m' n'] t IH]; [intros []|]. intros [Eq|H].
+  - inversion Eq; subst. exists (ppowprod t). intros x. cbn [ppowprod_val]. rewrite peval_ppowprod. ring.
+  - destruct (IH H) as [C HC]. exists (pmul (ppow m' n') C). intros x. cbn [ppowprod_val].
+    rewrite HC, peval_pmul, peval_ppow. ring. Qed.
+Theorem minpoly_cert_divides A l m n : minpoly_cert A l = true -> In (m, n) l -> pdivides (ppow m n) A.
+Proof. intros H Hin. destruct (ppowprod_val_split l m n Hin) as [C HC].
+  exists (pscale (plc A) C). intros x. rewrite (minpoly_cert_sound A l H x), HC, peval_pscale, peval_ppow. ring. Qed.
+(* a root of one of the listed minimal polynomials (with positive multiplicity) is a root of A *)
+Theorem minpoly_cert_root A l m n r : minpoly_cert A l = true -> In (m, S n) l -> peval m r = 0 -> peval A r = 0.
+Proof. intros H Hin Hr. destruct (minpoly_cert_divides A l m (S n) H Hin) as [C HC].
+  rewrite HC, peval_ppow, Hr. cbn [fpow]. ring. Qed.
 End RF.
 
+Arguments ppowprod {K}. Arguments ppowprod_val {K}. Arguments minpoly_cert {K}. Arguments minpoly_degree {K}.
 Arguments att_ok {K}. Arguments sem {K}. Arguments dfac {K}. Arguments ufac {K}.
 Arguments fmt_canonical_fc {K}. Arguments fmt_canonical {K}. Arguments fmt_general {K}. Arguments fmt_standard {K}.
 Arguments fmt_expandcanonical {K}. Arguments fmt_timeconst {K}. Arguments pec {K}. Arguments fmt_ZPK {K}. Arguments fmt_ZPK_cc {K}.
